@@ -136,6 +136,8 @@ fn main() {
     emit_lex(&mut out, "LEX_AB", &[ab]);
     emit_lex(&mut out, "LEX_B", &[b]);
     emit_lex(&mut out, "LEX_B_AB", &[b, ab]);
+    emit_lex(&mut out, "LEX_AB_AB", &[ab, ab]);
+    emit_lex(&mut out, "LEX_A_AB_AB", &[a, ab, ab]);
     // homographs: two rows share a surface
     emit_lex(&mut out, "LEX_A_A_AB", &[a, a, ab]);
     emit_lex(&mut out, "LEX_AB_A_AB", &[ab, a, ab]);
